@@ -22,6 +22,7 @@ import (
 	"encoding/base64"
 	"fmt"
 	"io"
+	"math"
 
 	"encoding/xml"
 
@@ -452,7 +453,12 @@ func maybeDeflate(data []byte, maxSize int64, decoder func([]byte) error) error 
 		maxSize = defaultMaxDecompressedResponseSize
 	}
 
-	lr := io.LimitReader(flate.NewReader(bytes.NewReader(data)), maxSize+1)
+	// Read one byte beyond the limit so that oversized input is detected; avoid overflowing for MaxInt64.
+	readLimit := maxSize
+	if readLimit < math.MaxInt64 {
+		readLimit++
+	}
+	lr := io.LimitReader(flate.NewReader(bytes.NewReader(data)), readLimit)
 
 	deflated, err := io.ReadAll(lr)
 	if err != nil {
